@@ -439,7 +439,14 @@ def run_session14(case):
     return session.run_case(c, lambda: [coherence_monitor()], oracle=None, key_pred=None)
 
 
-KINDS = {"session": run_session14, "scripted": run_scripted, "realpool": run_realpool, "cadence": run_cadence}
+def run_duo14(case):
+    """Two clustering samplers (different targets / cadences / caps) alive in one process, every interleaving of their iterations and queries:
+    at every kernel entry of either, labels and modes must be coherent with ITS OWN clusterer and particles."""
+    from mc import session
+    return session.run_duo(case, lambda: [coherence_monitor()])
+
+
+KINDS = {"duo": run_duo14, "session": run_session14, "scripted": run_scripted, "realpool": run_realpool, "cadence": run_cadence}
 
 
 def plan(ctx):
@@ -485,4 +492,9 @@ def plan(ctx):
             for sh in range(4):
                 ses.append({"kind": "session", "cfg": scfg, "base": ctx.seed, "depth": 9, "patterns": [sh, 4 if th else 8]})
     ctx.explore("session-sequences", ses)
+    dbase = dict(clustering=True, cluster_every=1, n_particles=24, d=2, ess_ratio=1.0, n_total=10 ** 6, target="bimodal", sample="tpcn")
+    duo = [{"kind": "duo", "cfg": dict(dbase, **a), "cfg_b": b, "base": ctx.seed, "depth": 4 if th else 3, "shard": [sh, 2]}
+           for a, b in (({}, {"target": "gauss"}), ({"cluster_every": 2}, {"cluster_every": 3, "sample": "rwm"}), ({"n_max_clusters": 2}, {"target": "unequal", "normalize": False, "d": 1}))
+           for sh in range(2)]
+    ctx.explore("two-samplers-interleaved", duo)
     agg = ctx.explore("cadence-and-resume", c)
